@@ -995,4 +995,4 @@ _COVERS = {
 
 PROPS = {p: {"engines": ENGINES, "witness": _witness(p), "assumptions": _ASSUME, "covers": _COVERS[p],
              "engine_info": _INFO}
-         for p in ("C01", "C09")}
+         for p in ("C01", "C02", "C03", "C04", "C06", "C09")}
